@@ -1,4 +1,6 @@
 import RsModel.Lemmas.Conc
+import RsModel.Lemmas.ConcV
+import RsModel.Props.C10
 /-!
 # C18 — concurrent readers get sequential answers; cached maps are never replaced
 Any number of threads, any operation lists, every interleaving of the schedule points.
@@ -86,3 +88,126 @@ example : (run (initSys [[.clone], [.sorted]]) [0, 1, 1, 1, 1, 0, 0]).ths.all (f
 example : (run (initSys [[.cmap], [.cstream]]) [0, 0, 1, 1, 1, 0]).sh.entry = some .S := by decide
 
 end Rs.Conc
+
+
+/-!
+## The same protocol with the values (`Model/ConcV.lean`)
+
+The theorems above are about the shared cells alone.  The ones below carry the values the crate computes: the shared ReplaceSource
+is the `RState` of C05, the shared CachedSource is the cache store of the sequential model of C10 and its calls act through the
+sequential functions.  Any number of threads, any operation lists, every interleaving of the schedule points; the state the
+concurrent phase starts from is any state a sequential history can leave behind (`r.Inv`; any store `σ`).
+-/
+namespace Rs.ConcV
+open Rs
+
+/-- **every `sorted_replacement()` under every interleaving returns the stably sorted replacement list, and every clone taken while
+other threads read is a consistent value** — so `source()` (and every other observer, all of which are functions of that list)
+of the shared object, and of the clone, is the reference replacement model of C05 applied to the replacements, exactly as
+single-threaded -/
+theorem c18_replace_answers (P : Params) (hnc : P.inner.NoCached) (r : RState) (hr : r.Inv) (σ : Store) (progs : List (List Op))
+    (sched : List Nat) (inner : Text) :
+    ∀ t ∈ (run P (initSys r σ progs) sched).ths, ∀ a ∈ t.outs,
+      (match a with
+       | .sorted rs => rs = sortRepls r.repls
+           ∧ RState.source inner { repls := r.repls, sorted := rs, isSorted := true } = applyRepls inner r.repls
+       | .cloned c => c.repls = r.repls ∧ c.source inner = applyRepls inner r.repls
+       | _ => True) := by
+  intro t ht a ha
+  have h := inv_run P hnc r.repls σ sched _ (inv_init P r hr σ progs)
+  obtain ⟨i, hi, rfl⟩ := List.getElem_of_mem ht
+  have hok := (h.threads i hi).outs a ha
+  cases a with
+  | sorted rs =>
+    simp only [AnsOK] at hok
+    refine ⟨hok, ?_⟩
+    rw [RState.source_of_inv inner _ (fun _ => hok), replaceSource_eq_applyRepls]
+  | cloned c =>
+    simp only [AnsOK] at hok
+    refine ⟨hok.1, ?_⟩
+    rw [RState.source_of_inv inner _ hok.2, replaceSource_eq_applyRepls, hok.1]
+  | call c x => trivial
+  | once v => trivial
+
+/-- the lazily sorted index, with its value: in every reachable state, flag set ⇒ the index is the sorted order; the replacement
+list itself is never touched -/
+theorem c18_flag_implies_sorted_value (P : Params) (hnc : P.inner.NoCached) (r : RState) (hr : r.Inv) (σ : Store)
+    (progs : List (List Op)) (sched : List Nat) :
+    (run P (initSys r σ progs) sched).sh.r.Inv ∧ (run P (initSys r σ progs) sched).sh.r.repls = r.repls := by
+  have h := inv_run P hnc r.repls σ sched _ (inv_init P r hr σ progs)
+  refine ⟨?_, h.sh.repls⟩
+  intro hf
+  rw [h.sh.repls]
+  exact h.sh.flagIdx hf
+
+/-- **linearisability of the shared CachedSource**: in every reachable state of every interleaving, the `map()` / `stream_chunks`
+/ text-view calls completed so far — in the order of the accesses that decided them (`log`) — are a run of the *sequential* model
+from the store the phase started with: the sequential run returns exactly the answers the threads got and ends in exactly the
+current store; and every answer any thread holds is in that log -/
+theorem c18_linearizable (P : Params) (hnc : P.inner.NoCached) (r : RState) (hr : r.Inv) (σ : Store) (progs : List (List Op))
+    (sched : List Nat) :
+    let fin := run P (initSys r σ progs) sched
+    runRoot3 P.id P.inner (fin.sh.log.map Prod.fst) σ = (fin.sh.log, fin.sh.σ)
+    ∧ ∀ t ∈ fin.ths, ∀ c x, Ans.call c x ∈ t.outs → (c, x) ∈ fin.sh.log := by
+  intro fin
+  have h := inv_run P hnc r.repls σ sched _ (inv_init P r hr σ progs)
+  refine ⟨h.sh.lin, ?_⟩
+  intro t ht c x hx
+  obtain ⟨i, hi, rfl⟩ := List.getElem_of_mem ht
+  exact (h.threads i hi).outs _ hx
+
+/-- **… hence every concurrent answer is a sequential answer**: on a cold cache, whatever the interleaving, every `stream_chunks`
+answer attributes every byte (columns) / every line (no columns) exactly as the wrapped source's own stream, every `map()` answer
+resolves every position alike and is absent exactly when nothing is mapped, and the text views are the wrapped source's — the
+statement of `c10_root_history_full`, now for calls racing on several threads -/
+theorem c18_cached_answers (P : Params) (hnc : P.inner.NoCached) (h2 : RootHyp2 P.id P.inner) (hT : RootHyp P.inner.strip)
+    (hL : RootHypL P.inner.strip) (r : RState) (hr : r.Inv) (σ : Store) (h0 : ∀ o, σ.get? (P.id, o) = none)
+    (hc : Cold σ P.inner.ids) (progs : List (List Op)) (sched : List Nat) :
+    ∀ t ∈ (run P (initSys r σ progs) sched).ths, ∀ c x, Ans.call c x ∈ t.outs →
+      (match c, x with
+       | .src, .text t => t = P.inner.src
+       | .buffer, .text t => t = P.inner.buffer
+       | .size, .num n => n = P.inner.size
+       | .io c2, .io (.stream r) =>
+          (c2.1 = true → attrOf r.evs = attrOf (P.inner.strip.stream ⟨true, false⟩ []).1.evs)
+          ∧ (c2.1 = false → ∀ L, LNameOf r.evs L = LNameOf (P.inner.strip.stream ⟨false, false⟩ []).1.evs L)
+       | .io c2, .io (.map m) =>
+          (c2.1 = true → (∀ sm, m = some sm → attrFrom (decode sm.mappings) startPos P.inner.src = attrOf (P.inner.strip.stream ⟨true, false⟩ []).1.evs)
+              ∧ (m = none → attrOf (P.inner.strip.stream ⟨true, false⟩ []).1.evs = List.replicate P.inner.src.length none))
+          ∧ (c2.1 = false → ∀ sm, m = some sm → ∀ L, 0 < L → LNameM sm L = LNameOf (P.inner.strip.stream ⟨false, false⟩ []).1.evs L)
+       | _, _ => False) := by
+  intro t ht c x hx
+  obtain ⟨hlin, hmem⟩ := c18_linearizable P hnc r hr σ progs sched
+  have hin := hmem t ht c x hx
+  have := c10_root_history_full P.id P.inner h2 hT hL _ σ h0 hc (c, x) (by rw [hlin]; exact hin)
+  exact this
+
+/-- **once a map has been cached it is never removed or replaced**, with its value: any step of any thread from any reachable
+state keeps every stored entry -/
+theorem c18_entry_never_replaced (P : Params) (hnc : P.inner.NoCached) (r : RState) (hr : r.Inv) (σ : Store) (progs : List (List Op))
+    (sched : List Nat) (i : Nat) (s' : Sys) (k : Nat × Opts) (v : Option SMap)
+    (hv : (run P (initSys r σ progs) sched).sh.σ.get? k = some v) (hs : step P (run P (initSys r σ progs) sched) i = some s') :
+    s'.sh.σ.get? k = some v :=
+  (step_spec P hnc r.repls σ _ s' i (inv_run P hnc r.repls σ sched _ (inv_init P r hr σ progs)) hs).2.entry k v hv
+
+/-- the memoised hash: every `get_or_init` returns the one value -/
+theorem c18_once_value (P : Params) (hnc : P.inner.NoCached) (r : RState) (hr : r.Inv) (σ : Store) (progs : List (List Op))
+    (sched : List Nat) : ∀ t ∈ (run P (initSys r σ progs) sched).ths, ∀ v, Ans.once v ∈ t.outs → v = P.hv := by
+  intro t ht v hv
+  have h := inv_run P hnc r.repls σ sched _ (inv_init P r hr σ progs)
+  obtain ⟨i, hi, rfl⟩ := List.getElem_of_mem ht
+  exact (h.threads i hi).outs _ hv
+
+/-! non-vacuity: `map()` racing `stream_chunks` on a cold `CachedSource(OriginalSource("a;b", "f"))` — the stream takes the entry lock,
+`map()` misses before that and stores after the stream has stored (so it returns the *stream's* map, by `or_insert`); a clone racing a
+sort of two replacements with colliding keys -/
+def exP : Params := { id := 0, inner := .orig [97, 59, 98] [102], hv := 7 }
+example : exP.inner.NoCached := trivial
+example : (run exP (initSys {} [] [[.call (.io (true, .map))], [.call (.io (true, .stream))]]) [0, 1, 1, 1, 0, 0]).sh.log.map
+      (fun p => match p.1 with | .io (_, .stream) => 1 | .io (_, .map) => 2 | _ => 0) = [1, 2] := by decide
+def exR : RState := { repls := [⟨1, 2, [88], none, 1⟩, ⟨1, 2, [89], none, 0⟩], sorted := [], isSorted := false }
+example : exR.Inv := fun h => by cases h
+example : (run exP (initSys exR [] [[.clone], [.sorted]]) [0, 1, 1, 1, 1, 0, 0]).ths.all (fun t => t.ops.isEmpty && t.outs.length == 1) = true := by
+  decide
+
+end Rs.ConcV
